@@ -1,13 +1,14 @@
 import engine, json, sys
 engine.ensure_deps()
+extra = sys.argv[sys.argv.index('--')+1:] if '--' in sys.argv else []
 with engine.Scratch(keep='--keep' in sys.argv) as sc:
     ov = engine.build_overlay(sc.dir)
-    print('scratch', sc.dir)
-    print('problems', ov.problems); print('lost', ov.lost)
-    r = engine.run_verus(sc.dir)
+    if '--keep' in sys.argv: print('scratch', sc.dir)
+    if ov.problems or ov.lost: print('problems', ov.problems, 'lost', ov.lost)
+    r = engine.run_verus(sc.dir, extra=extra)
     print('ok',r.ok,'verified',r.verified,'errors',r.errors,'fe',r.front_end_error,'wall',round(r.wall_s,1))
     for d in r.diags[:12]:
-        print(d['message'][:300]); 
-        for s in engine.diag_spans(d)[:6]: print('   ',s)
+        print(d['message'][:400]); 
+        for s in engine.diag_spans(d)[:4]: print('   ',s[0],s[1],s[3],s[5][:200])
     slow = sorted(r.units.items(), key=lambda kv: -kv[1]['time_us'])[:5]
-    print([(k, v['time_us']//1000) for k,v in slow])
+    print([(k.split('::')[-1], v['time_us']//1000) for k,v in slow])
